@@ -700,6 +700,60 @@ def define_map_arrow(c, a, st, v):
     f = a["f"]
     c.teq(st, "map_arrow: source type F(A)", src_type(st, v), ("Fmap", F, src_type(st, f)))
     c.teq(st, "map_arrow: target type F(B)", tgt_type(st, v), ("Fmap", F, tgt_type(st, f)))
+    # GLUE: every hyperedge is replaced by the image of its operation, glued along its expanded legs — the result is
+    # BUILT FROM the interface legs and the nodes of the tensor of the operation images (data dependence), unless
+    # those are empty on this path
+    user = set()
+
+    def collect(x):
+        if isinstance(x, tuple):
+            if len(x) == 2 and x[0] == "v" and isinstance(x[1], tuple) and len(x[1]) == 2 and isinstance(x[1][0], tuple) \
+                    and x[1][0][:2] == ("user", "map_operations"):
+                user.add(x)
+            for y in x:
+                collect(y)
+        elif isinstance(x, Poly):
+            for a_ in x.atoms():
+                collect(a_)
+    for k_, p_ in st.lin.facts:
+        collect(p_)
+    for t_ in list(st.bnd):
+        collect(t_)
+    used = set()
+    _collect_value_leaves(v, used)
+    names = {u[1][0] for u in user}
+    for nm in sorted(names, key=repr):
+        for fld, what in (("s", "source leg"), ("t", "target leg"), ("w", "node labels")):
+            lf = ("v", (nm, fld))
+            if st.eq(t_len(lf), 0):
+                continue
+            c.ob("ENS", f"map_arrow: the result is glued from the operation images (their {what})",
+                 f"the result mentions {fld} of the tensor of the operation images", lf in used, st)
+
+
+def _collect_value_leaves(v, out):
+    def walk_t(x):
+        if isinstance(x, tuple):
+            if len(x) == 2 and x[0] == "v":
+                out.add(x)
+            for y in x:
+                walk_t(y)
+        elif isinstance(x, Poly):
+            for a_ in x.atoms():
+                walk_t(a_)
+    if isinstance(v, VSeq):
+        walk_t(v.t)
+    elif isinstance(v, VNat):
+        walk_t(v.p)
+    elif isinstance(v, VRec):
+        for x in v.f.values():
+            _collect_value_leaves(x, out)
+    elif isinstance(v, VTup):
+        for x in v.items:
+            _collect_value_leaves(x, out)
+    elif isinstance(v, VEnum):
+        for x in v.payload:
+            _collect_value_leaves(x, out)
 
 
 @spec("strict::functor::identity::Identity as strict::functor::traits::Functor<K, O, A, O, A>>::map_arrow")
@@ -1447,12 +1501,26 @@ def arrow_validate(c, a, st, v):
 
 # ------------------------------------------------------------------ input dependence (DEP)
 
+_SEEN_LOOPS = set()
+
+
 def leaves_of(x, out=None):
     if out is None:
         out = set()
     if isinstance(x, tuple):
         if x and x[0] == "v" and len(x) == 2 and isinstance(x[1], str):
             out.add(x[1])
+        if x and x[0] == "loopvar" and len(x) >= 2 and isinstance(x[1], tuple) and len(x[1]) >= 2:
+            # a value summarised by a loop depends on whatever the loop reads
+            import loops
+            key = (x[1][0], x[1][1])
+            if key not in _SEEN_LOOPS:
+                _SEEN_LOOPS.add(key)
+                try:
+                    for d in loops.LOOP_DEPS.get(key, ()):
+                        out.add(d)
+                finally:
+                    _SEEN_LOOPS.discard(key)
         for y in x:
             leaves_of(y, out)
     elif isinstance(x, Poly):
@@ -1606,7 +1674,8 @@ def lax_delete_nodes_witness(c, a, st, v):
             if not (t[0] == "filtermap" and t[1] == old and mentions_gather_of(t[2], old)):
                 ok = False
     c.ob("ENS", "delete_nodes_witness: every hyperedge's sources and targets are filtered and renumbered through the map",
-         f"adjacency ≡ map(e -> filter_map through the renumber map): got {show_term(got)[:300]}", ok or L == EMPTY, st)
+         f"adjacency ≡ map(e -> filter_map through the renumber map): got {show_term(got)[:300]}", ok or L == EMPTY, st,
+         actual=got if opaque(got) else None)
     q0, q1 = p.f["quotient"].items[0].t, p.f["quotient"].items[1].t
     c.ob("ENS", "delete_nodes_witness: the pending unifications stay pairs (both columns keep or drop a pair together)",
          f"len(quotient.0') == len(quotient.1'): {show_term(q0)[:120]} / {show_term(q1)[:120]}",
@@ -1794,6 +1863,15 @@ def forget_map_operation(c, a, st, v):
     else:
         c.ob("ENS", "forget removes a hyperedge only if it is variable-labelled",
              "hyperedge removed ⇒ the path established a == HasVar::var()", is_var, st)
+        # ... and replaces it by ONE merged node carrying every source and target position (nothing at all for 0 → 0)
+        ns, nt = t_len(s_), t_len(t_)
+        nodes = h.f["nodes"].t
+        if st.eq(ns, 0) and st.eq(nt, 0):
+            c.eq(st, "forget: a 0 → 0 variable disappears", t_len(nodes), 0)
+        else:
+            c.eq(st, "forget: a variable becomes a single merged node", t_len(nodes), 1)
+            c.teq(st, "forget: every source position is the merged node", v.f["sources"].t, ("fill", Poly.const(0), ns))
+            c.teq(st, "forget: every target position is the merged node", v.f["targets"].t, ("fill", Poly.const(0), nt))
 
 
 @spec(f"{S_H}::<K, O, A>::is_discrete")
